@@ -1015,6 +1015,12 @@ func (m *Machine) binary(fr *frame, e Binary) Value {
 			fail(FailDivZero)
 		}
 		return m.checked(a.T, oracle.TruncRem(a.V, b.V))
+	case "&":
+		return m.checked(a.T, new(big.Int).And(a.V, b.V)) // two's complement semantics (math/big)
+	case "|":
+		return m.checked(a.T, new(big.Int).Or(a.V, b.V))
+	case "^":
+		return m.checked(a.T, new(big.Int).Xor(a.V, b.V))
 	case "<":
 		return BoolV(a.V.Cmp(b.V) < 0)
 	case "<=":
